@@ -161,6 +161,82 @@ class Splitters(Instance):
         return s["splitters"] == n.get("splitters") and s["singletons"] == n.get("singletons") and s["duplicates"] == n.get("duplicates")
 
 
+class Variants(Instance):
+    """The in-memory, streaming and first-sample variants return the same three sets for the same reference: the reference is a FASTA
+    file on the file-system model holding symbolic contigs; determine_splitters_streaming / _first_sample read it through the real
+    GenomeIO reader, determine_splitters gets the same contigs in memory."""
+    crates = ("ragc-core", "ragc-common")
+
+    def __init__(self, name, k, segs, maxlens, alpha):
+        Instance.__init__(self, name)
+        self.k, self.segs, self.maxlens, self.alpha = k, segs, maxlens, alpha
+        self.required_witnesses = ("has_splitter", "two_contigs")
+        self.n_concrete = 8
+        self.bounds = {"k": k, "segment_size": segs, "reference": f"FASTA file with {len(maxlens)} record(s) of length 1..{maxlens} over codes {alpha} (non-PanSN headers: one sample)",
+                       "relation": "splitters, singletons and duplicates of determine_splitters_streaming and determine_splitters_streaming_first_sample equal those of determine_splitters"}
+
+    def path(self, e):
+        from mirsym import models_io
+        e.fs = models_io.FS()
+        seg = self.segs[e.choose(len(self.segs), "seg_i")]; e.inputs["segment_size"] = seg
+        contigs, text = [], []
+        L = b"ACGTN"
+        for i, ml in enumerate(self.maxlens):
+            n = 1 + e.choose(ml, f"n{i}")
+            c = e.sym_bytes(f"c{i}", n, among=self.alpha)
+            contigs.append(c)
+            text += [Int(8, 0, b) for b in b">c%d\n" % i]
+            for x in c:
+                ch = Int(8, 0, L[self.alpha[-1]] if self.alpha[-1] < 5 else 78)
+                for code in self.alpha:
+                    ch = ite_int(e.binop("Eq", x, Int(8, 0, code)), Int(8, 0, L[code] if code < 5 else 78), ch)
+                text.append(ch)
+            text.append(Int(8, 0, 10))
+        if len(contigs) > 1:
+            e.witness("two_contigs")
+        fd = models_io.FileData(); fd.data[:] = text
+        path = b"/in/ref.fa"; e.fs.files[path] = fd
+        cs = VecObj([VecObj(list(c)) for c in contigs])
+        r0 = e.call_fn(CORE, "determine_splitters", [e.as_slice(Ref(Cell(cs))), Int(64, 0, self.k), Int(64, 0, seg)])
+        mem = [set_keys(e, r0.f[j]) for j in range(3)]
+        out = {}
+        for fn in ("determine_splitters_streaming", "determine_splitters_streaming_first_sample"):
+            r = e.call_fn(CORE, fn, [e.str_slice(path), Int(64, 0, self.k), Int(64, 0, seg)])
+            e.prove(r.variant == 0, "spl:variant_failed", f"{fn} failed on a readable reference")
+            got = [set_keys(e, r.f[0].f[j]) for j in range(3)]
+            out[fn] = got
+            if e.concrete is None:
+                for j, what in enumerate(("splitter", "singleton", "duplicate")):
+                    e.prove(same_set(e, mem[j], got[j]), "spl:variants_differ", f"the {what} set of {fn} differs from the in-memory determine_splitters")
+        if mem[0]:
+            e.witness("has_splitter")
+        if e.concrete is not None:
+            srt = lambda ks: sorted(x.v for x in ks)
+            return {"mem": [srt(x) for x in mem], "streaming": [srt(x) for x in out["determine_splitters_streaming"]], "first": [srt(x) for x in out["determine_splitters_streaming_first_sample"]]}
+        return None
+
+    def classify_panic(self, e, ex):
+        return f"spl:panic:{ex.where.split('::')[-1]}:{ex.kind}", str(ex)
+
+    def native(self, inp):
+        return "splitter_variants", {"k": self.k, "segment_size": inp.get("segment_size", self.segs[inp.get("seg_i", 0)]), "contigs": [inp.get(f"c{i}", [0]) for i in range(len(self.maxlens))]}
+
+    def confirm(self, viol, outs):
+        return any(("panic" in o or "crash" in o or o.get("ok") is False) for o in outs.values())
+
+    def concrete_cases(self, rnd):
+        out = []
+        for _ in range(8):
+            c = {"seg_i": rnd.randrange(len(self.segs))}
+            for i, ml in enumerate(self.maxlens):
+                n = 1 + rnd.randrange(ml); c[f"n{i}"] = n - 1; c[f"c{i}"] = [rnd.choice(self.alpha) for _ in range(n)]
+            out.append(c)
+        return out
+
+    def compare(self, s, n):
+        return s["mem"] == n.get("mem") and s["streaming"] == n.get("streaming") and s["first"] == n.get("first")
+
+
 INSTANCES = {}
 
 
@@ -170,13 +246,13 @@ def _reg(i):
 
 
 SN = [0, 1, 2, 3, 4]
-QUICK = [_reg(Splitters("one_k2", 2, [1, 3], [5], SN)).name, _reg(Splitters("two_k2", 2, [1], [3, 2], [0, 1, 4], relational=True)).name]
-THOROUGH = [_reg(Splitters("T_one_k2", 2, [1, 2, 3], [6], SN)).name, _reg(Splitters("T_two_k2", 2, [1, 2], [4, 3], SN)).name, _reg(Splitters("T_one_k3", 3, [1, 2], [6], SN)).name]
+QUICK = [_reg(Variants("variants_k2", 2, [1, 3], [5, 3], [0, 1, 3, 4])).name, _reg(Splitters("one_k2", 2, [1, 3], [5], SN)).name, _reg(Splitters("two_k2", 2, [1], [3, 2], [0, 1, 4], relational=True)).name]
+THOROUGH = [_reg(Variants("T_variants_k2", 2, [1, 2, 3], [6, 4], SN)).name, _reg(Variants("T_variants_k3", 3, [2, 4], [8], [0, 1, 2, 3, 4])).name, _reg(Splitters("T_one_k2", 2, [1, 2, 3], [6], SN)).name, _reg(Splitters("T_two_k2", 2, [1, 2], [4, 3], SN)).name, _reg(Splitters("T_one_k3", 3, [1, 2], [6], SN)).name]
 
 
 def run(ctx):
     insts = [INSTANCES[n] for n in (QUICK if ctx["tier"] == "quick" else THOROUGH)]
     return run_instances("C11", "harness.C11", insts, ctx,
                          assumptions=["rayon par_iter().map().collect() preserves order (rayon's documented contract): thread counts are outside the claim",
-                                      "the streaming and first-sample variants (file readers, gz) and the segment-spacing consequence are outside this check",
+                                      "the streaming and first-sample variants are compared with the in-memory one on FASTA files of the file-system model (gz outside); the segment-spacing consequence is outside this check",
                                       "radix sort is modelled by its specification (sorted permutation)"])
